@@ -4,6 +4,7 @@ import RbV.Model.InvBWT
 import RbV.Thm.GenSrcBwt
 import RbV.Thm.GenSrcPrescan
 import RbV.Thm.GenSrcOcc
+import RbV.Thm.GenSrcLess
 /-!
 # C04 — BWT, less and Occ are exact (mirror models of `bwt.rs` refine the specification)
 
@@ -257,5 +258,30 @@ example : Gen.SrcOcc.get (fun s c => s.count c) [[0, 0], [1, 2], [0, 0], [0, 2]]
   decide
 example : Gen.SrcOcc.get (fun s c => s.count c) [[0, 0], [1, 2], [0, 0], [0, 2]] 3 [1, 3, 3, 1, 2, 0] 6 3 = Rs.Res.panic := by
   decide
+
+/-! ### `less()` translated from the source text (`RbV/Gen/SrcLess.lean`, proofs `RbV/Thm/GenSrcLess.lean`) -/
+
+/-- **`pub fn less`, as written, is the mirror model `lessModel`** with table size `max_symbol + 2`: the counting loop
+`less[c as usize] += 1` followed by the translated `utils::prescan` (the closure `|a, b| a + b` read as `+`).
+Hypotheses = what keeps the Rust code from panicking: non-empty alphabet (`max_symbol()` is `Some`), every BWT symbol
+below the table size, `n < 2^64`. -/
+theorem less_source_eq_model {Alph : Type} (maxSymbol : Alph → Option Nat) (bwt : List Nat) (alphabet : Alph) (ms : Nat)
+    (hms : maxSymbol alphabet = some ms) (hms' : ms + 2 < 2 ^ 64) (hn : bwt.length < 2 ^ 64)
+    (hsym : ∀ x ∈ bwt, x < ms + 2) :
+    Gen.SrcLess.less maxSymbol bwt alphabet = Rs.Res.ok (lessModel bwt (ms + 2)) :=
+  GenSrcLess.less_eq_model maxSymbol bwt alphabet ms hms hms' hn hsym
+
+/-- generated code = specification: entry `c` of the array returned by the translated `less()` is the number of BWT
+symbols strictly smaller than `c`, for every `c` up to `max_symbol + 1` -/
+theorem less_source_exact {Alph : Type} (maxSymbol : Alph → Option Nat) (bwt : List Nat) (alphabet : Alph) (ms c : Nat)
+    (hms : maxSymbol alphabet = some ms) (hms' : ms + 2 < 2 ^ 64) (hn : bwt.length < 2 ^ 64)
+    (hsym : ∀ x ∈ bwt, x < ms + 2) (hc : c < ms + 2) :
+    ∃ r, Gen.SrcLess.less maxSymbol bwt alphabet = Rs.Res.ok r ∧ r[c]? = some (bwt.countP (fun x => decide (x < c))) :=
+  ⟨_, GenSrcLess.less_eq_model maxSymbol bwt alphabet ms hms hms' hn hsym, less_eq bwt (ms + 2) c hc⟩
+
+example : Gen.SrcLess.less (fun _ => some 3) [1, 3, 3, 1, 2, 0] () = Rs.Res.ok [0, 1, 3, 4, 6] := by decide
+-- empty alphabet: `.expect("Expecting non-empty alphabet.")` panics; a symbol beyond the table: index out of bounds
+example : Gen.SrcLess.less (fun _ => none) [1, 3] () = Rs.Res.panic := by decide
+example : Gen.SrcLess.less (fun _ => some 1) [1, 3] () = Rs.Res.panic := by decide
 
 end RbV.Thm.C04
